@@ -87,7 +87,8 @@ for line in sys.stdin.read().split('\n'):
         elif op == 'markerstr':
             out.append(str(Marker(p[1])))
         elif op == 'verinfo':
-            v = Version(p[1]); out.append(json.dumps({"norm": str(v), "pre": bool(v.is_prerelease)}))
+            v = Version(p[1]); out.append(json.dumps({"norm": str(v), "pre": bool(v.is_prerelease), "post": v.post is not None, "dev": v.dev is not None,
+                                                      "prekind": v.pre is not None, "local": v.local or "", "epoch": v.epoch, "release": list(v.release)}))
         elif op == 'spec1':
             out.append(str(Specifier(p[1])))
         elif op == 'reqx':
